@@ -591,6 +591,9 @@ class Executor(object):
             f = st.get(v, attr)
             if f is not None:
                 return [(st, "ok", f)]
+            hook = self.models.instance_attr(self, st, v, attr)
+            if hook is not None:
+                return hook
             return self.class_attr(v.kind, attr, st, fr, self_val=v)
         if isinstance(v, VClass):
             cell = self.models.class_cell(self, st, v, attr)
@@ -635,13 +638,15 @@ class Executor(object):
                         return [(st, "ok", fn)]
                     if any(d in ("property", "cached_property") for d in decos) and self_val is not None:
                         cached = "cached_property" in decos
+                        ckey = "__cache__%s.%s" % (c.name, attr)   # D-CACHE: one cache per descriptor and instance
                         if cached:
-                            got = st.get(self_val, "__cache__" + attr)
+                            got = st.get(self_val, ckey)
                             if got is not None:
                                 return [(st, "ok", got)]
                         outs = self.call_function(fn, [self_val], {}, st, fr)
                         if cached:
-                            outs = [((s.set(self_val, "__cache__" + attr, v) if tag == "ok" else s), tag, v)
+                            self.used_models.add("D-CACHE")
+                            outs = [((s.set(self_val, ckey, v) if tag == "ok" else s), tag, v)
                                     for (s, tag, v) in outs]
                         return outs
                     other = [d for d in decos if d not in ("classmethod", "staticmethod", "abc.abstractmethod")]
@@ -800,6 +805,24 @@ class Executor(object):
                 raise Unsupported("super outside method")
             selfv = st.env.get("self", st.env.get("cls"))
             return [(st, "ok", VSuper(fr.cls, selfv))]
+
+        # `record.features.append(feature)` on a value-modelled feature table (functional update of the field)
+        if (isinstance(node.func, ast.Attribute) and node.func.attr == "append" and isinstance(node.func.value, ast.Attribute)
+                and node.func.value.attr == "features" and len(node.args) == 1 and not node.keywords):
+            res = []
+            for (s, tag, vals) in self.eval_list([node.func.value.value, node.args[0]], st, fr):
+                if tag != "ok":
+                    res.append((s, tag, vals))
+                    continue
+                owner, feat = vals
+                cur = s.get(owner, "features") if isinstance(owner, VObj) else None
+                if isinstance(cur, VT) and hasattr(self.models, "features_append"):
+                    res.append((self.models.features_append(self, s, owner, feat), "ok", NONE))
+                elif isinstance(cur, VList):
+                    res.append((s.set(cur, "items", list(s.get(cur, "items")) + [feat]), "ok", NONE))
+                else:
+                    raise Unsupported("features.append on %r" % (cur,))
+            return res
 
         def after_func(s, f):
             pos_nodes = []
@@ -993,6 +1016,7 @@ class Executor(object):
         for (label, req) in con.requires(self, st, env):
             self.emit("%s::call-pre:%s" % (site, label), st, req, kind="A",
                       text="precondition %s of %s at a call in %s" % (label, con.qual, fr.qual))
+        st = st.assume(*con.assumes(self, st, env))
         res = []
         conds = []
         for (excname, cond, mkargs) in con.raises(self, st, env):
@@ -1006,7 +1030,14 @@ class Executor(object):
             conds.append(cond)
         s_ok = st.assume(*[tm.not_(c) for c in conds]) if con.exact_raises else st
         for (s3, val) in con.result(self, s_ok, env):
-            ens = [t for (_, t) in con.ensures(self, st, s3, env, val)]
+            ens = []
+            for (label, t) in con.ensures(self, st, s3, env, val):
+                t = tm.lift(t)
+                if tm.is_const(t) and not tm.cval(t):
+                    # the skeleton built by result() contradicts the contract's own postcondition: a defect of
+                    # the sidecar, never to be turned into a silently infeasible path
+                    raise Unsupported("contract %s: result() violates its clause %s at a call site" % (con.qual, label))
+                ens.append(t)
             res.append((s3.assume(*ens), "ok", val))
         return res
 
